@@ -187,7 +187,14 @@ pub fn case(ctx: &Ctx, shard: usize, index: u64, rep: &mut Report) {
         } else {
             c2.h += if sorenson { 1 + rng.below(20) as usize } else { 4 * (1 + rng.below(5) as usize) };
         }
-        (vector_field_picture(&mut rng, &c2, false).encode(), Fault::SizeMismatchP)
+        let mut xp = vector_field_picture(&mut rng, &c2, false);
+        if rng.chance(1, 2) {
+            // ... that also ends early: in a shared reader the macroblock loop then stops at whatever follows
+            let n = xp.mbs.len();
+            xp.mbs.truncate(rng.below(n as u64) as usize);
+            rep.count("prediction_failures_ending_early");
+        }
+        (xp.encode(), Fault::SizeMismatchP)
     } else {
         make_failing(&mut rng, &cfg, have_ref)
     };
@@ -263,6 +270,11 @@ pub fn case(ctx: &Ctx, shard: usize, index: u64, rep: &mut Report) {
         let lead = gen_intra(&mut rng, &cfg).encode();
         let mut all = lead.clone();
         all.extend_from_slice(&x);
+        // what follows the failing input: arbitrary bytes, or the start of another picture
+        let follow_picture = rng.chance(1, 2);
+        if follow_picture {
+            all.extend_from_slice(&gen_intra(&mut rng, &cfg).encode());
+        }
         all.extend_from_slice(&[0xA5, 0x5A, 0xC3, 0x3C, 0x96, 0x69]);
         let mut d = Dec::new(sorenson, false);
         let r = catch(|| {
@@ -298,6 +310,10 @@ pub fn case(ctx: &Ctx, shard: usize, index: u64, rep: &mut Report) {
                         return;
                     }
                     rep.count("shared_reader_position_checks");
+                    if follow_picture {
+                        rep.count("shared_reader_position_checks_before_another_picture");
+                        rep.count(&format!("shared_reader_before_picture:{}:{}", if sorenson { "sorenson" } else { "standard" }, fault.depth()));
+                    }
                     rep.count(&format!("shared_reader_phase={}", p0 % 8));
                 }
             }
@@ -557,7 +573,7 @@ pub fn run(ctx: &Ctx) -> (Report, String) {
     if ctx.is_main() {
         let m = ctx.scale_pct;
         rep.require("continuation_steps_compared", if ctx.tier == Tier::Thorough { 1_500_000 } else { 80_000 } * m / 100);
-        for k in ["depth=header", "depth=truncation", "depth=macroblock-header", "depth=block-data", "depth=prediction", "shared_reader_position_checks", "split:retried-ok", "split_pictures"] {
+        for k in ["depth=header", "depth=truncation", "depth=macroblock-header", "depth=block-data", "depth=prediction", "shared_reader_position_checks", "split:retried-ok", "split_pictures", "shared_reader_position_checks_before_another_picture", "shared_reader_before_picture:standard:prediction", "shared_reader_before_picture:sorenson:prediction", "prediction_failures_ending_early"] {
             rep.require(k, 100 * m / 100);
         }
     }
